@@ -169,10 +169,13 @@ func (c *Ctx) runFormatBatch(k fmtKind, inputs []string, st *fmtStats, tame ...b
 		if !strings.Contains(in, "#") && goOutC != goOut {
 			c.Report("correspondence", "comments-on-differs", fmt.Sprintf("%s: comment-free document %q formats differently with WithComments()", k.tag, in), replay(nil))
 		}
-		// (ii) direct round-trip checks. Texts that are not valid UTF-8 are outside the properties'
-		// quantifier ("whatever characters they contain"): after an escape the lexer re-encodes what
-		// it decodes, so ill-formed bytes cannot survive (theorem C12_quote_illformed_counterexample).
-		if !utf8.ValidString(in) {
+		// (ii) direct round-trip checks. Schema texts that are not valid UTF-8 are outside the
+		// properties' quantifier ("whatever characters they contain"): descriptions are written as block
+		// strings, and the block-string lexer re-encodes what it decodes, so ill-formed bytes cannot
+		// survive there. Executable documents are in the domain whatever bytes they contain: string
+		// values are written as quoted strings and the lexer keeps the source bytes of a quoted string
+		// (theorems C12_quote_roundtrip_bytes, C12_string_value_illformed_roundtrip).
+		if k.tag != "q" && !utf8.ValidString(in) {
 			st.outOfDomain++
 			continue
 		}
@@ -317,12 +320,13 @@ func checkXFormat(c *Ctx) {
 			}
 		}
 		c.Ev.Count("quote_cases", len(reqs))
-		// the repaired quoting: the REAL lexer reads gqlQuote(bs) back as bs (valid UTF-8 bs)
+		// the repaired quoting: the REAL lexer reads gqlQuote(bs) back as bs, for ARBITRARY bytes bs
+		// (theorem C12_quote_roundtrip_bytes; every other case is made well-formed UTF-8)
 		var greqs []string
 		var gins [][]byte
 		for i := 0; i < n/2; i++ {
 			b := GenBytes(c.R, 24)
-			if !utf8.Valid(b) {
+			if i%2 == 1 && !utf8.Valid(b) {
 				b = []byte(strings.ToValidUTF8(string(b), "?"))
 			}
 			gins = append(gins, b)
@@ -414,6 +418,8 @@ var fmtMinimalQ = []string{
 	`{ f(a: "\u007f") }`,                     // R12a \x7f
 	`{ f(a: "\u0000") }`,                     // R12a \x00
 	"{ f(a: \"\xff\") }",                     // R12a \xff (invalid UTF-8 kept raw by the lexer)
+	"{a(s:\"\t\xff\")}",                      // raw TAB is written as \t: FF after an escape is kept raw too (C12_string_value_illformed_roundtrip)
+	"{a(s:\"\x7f\xff\\n\xc3(\xe2\x82\")}",      // DEL -> \u007f, ill-formed bytes and truncated sequences after escapes
 	"{ f(a: \"\U000e0001\") }",               // R12a \U000e0001
 	`{ f(a: "\u0085") }`,                     // \u0085: fine
 	`query ($a: Int = 1 @x) { f }`,           // R12b
